@@ -661,8 +661,6 @@ def m_c11_losers(out) -> list[Violation]:
     """at quiescence: once one stage of a deferred-choice group has started, every other stage of the group is CANCELED
     (the winner cancels its siblings itself - a loser whose own StartStage never comes must not be left NOT_STARTED)"""
     vs = []
-    if not out["quiescent"]:
-        return vs
     specs = spec_map(out)
     fs = final_statuses(out)
     groups = {}
@@ -677,7 +675,9 @@ def m_c11_losers(out) -> list[Violation]:
         return vs
     for g, members in groups.items():
         won = [m for m in members if m in started]
-        if len(won) == 1:
+        # judged once the winner itself has finished (the CancelStage messages it sent at its claim are long delivered); the
+        # workflow need not be quiescent - a loser behind a suspended upstream keeps CompleteWorkflow polling
+        if len(won) == 1 and (out["quiescent"] or fs.get(won[0]) in COMPLETE):
             for m in members:
                 if m != won[0] and fs.get(m) != "CANCELED":
                     vs.append(Violation(what=f"deferred-choice group {g!r}: {won[0]} started but {m} ends {fs.get(m)}, not CANCELED",
